@@ -163,6 +163,16 @@ Definition saver_part (cx : context) (rq : request) (p : plugin) (d : dt) (st : 
       do sv <- add_savers cx rq p (p_prov p) (s_savers st);
       Ok (mkst (s_seen st) (s_loaders st) (s_compute st) sv).
 
+(* `for x in xs: f(x)` over a state with early exit on an exception *)
+Fixpoint fold_res {A S : Type} (f : A -> S -> res S) (l : list A) (s : S) : res S :=
+  match l with
+  | [] => Ok s
+  | x :: r => do s' <- f x s; fold_res f r s'
+  end.
+
+Definition blocked (cx : context) (rq : request) (p : plugin) (d : dt) : bool :=
+  (r_time_range rq && (sw_of p d >? SAVEWHEN_EXPLICIT)) || c_forbid_all cx || mem d (c_forbid cx).
+
 Fixpoint check_cache (fuel : nat) (g : graph) (cx : context) (rq : request) (d : dt) (st : pstate) : res pstate :=
   match fuel with
   | O => Err E_FUEL
@@ -172,28 +182,18 @@ Fixpoint check_cache (fuel : nat) (g : graph) (cx : context) (rq : request) (d :
         match plugin_of g d with
         | None => Err E_KEY
         | Some (_, p) =>
-            let st1 := mkst (d :: s_seen st) (s_loaders st) (s_compute st) (s_savers st) in
             if loadable (c_fes cx) d then
-              Ok (mkst (s_seen st1) (d :: s_loaders st1) (s_compute st1) (s_savers st1))
-            else if r_time_range rq && (sw_of p d >? SAVEWHEN_EXPLICIT) then Err E_DNA
-            else if c_forbid_all cx then Err E_DNA
-            else if mem d (c_forbid cx) then Err E_DNA
+              Ok (mkst (d :: s_seen st) (d :: s_loaders st) (s_compute st) (s_savers st))
+            else if blocked cx rq p d then Err E_DNA
             else
-              let st2 := mkst (s_seen st1) (s_loaders st1) (d :: s_compute st1) (s_savers st1) in
-              do st3 <- (fix go (ds : list dt) (s : pstate) : res pstate :=
-                           match ds with
-                           | [] => Ok s
-                           | x :: r => do s' <- check_cache f g cx rq x s; go r s'
-                           end) (p_deps p) st2;
+              do st3 <- fold_res (check_cache f g cx rq) (p_deps p)
+                                 (mkst (d :: s_seen st) (s_loaders st) (d :: s_compute st) (s_savers st));
               saver_part cx rq p d st3
         end
   end.
 
-Fixpoint check_all (fuel : nat) (g : graph) (cx : context) (rq : request) (ds : list dt) (st : pstate) : res pstate :=
-  match ds with
-  | [] => Ok st
-  | x :: r => do s' <- check_cache fuel g cx rq x st; check_all fuel g cx rq r s'
-  end.
+Definition check_all (fuel : nat) (g : graph) (cx : context) (rq : request) (ds : list dt) (st : pstate) : res pstate :=
+  fold_res (check_cache fuel g cx rq) ds st.
 
 (* ---------------------------------------------------------------------------------------------- *)
 (* get_components                                                                                 *)
